@@ -58,6 +58,10 @@ pub struct C17Scenario {
     /// `-f` naming the configuration in the repository root (source.path is relative to the working directory)
     #[serde(default)]
     pub cwd_sub: bool,
+    /// the input given to `config generate` spells out the documented defaults of the source object
+    /// (`"checksum": null, "algorithm": null`) instead of omitting them
+    #[serde(default)]
+    pub explicit_nulls: bool,
 }
 
 pub struct C17;
@@ -65,6 +69,7 @@ pub struct C17;
 fn gen_c17(seed: u64, idx: usize, tier: Tier) -> C17Scenario {
     let mut sc = gen_c17_base(seed, idx, tier);
     sc.cwd_sub = sc.rand_seed % 4 == 0;
+    sc.explicit_nulls = (sc.rand_seed / 4) % 3 == 0;
     sc
 }
 
@@ -85,7 +90,7 @@ fn gen_c17_base(seed: u64, idx: usize, tier: Tier) -> C17Scenario {
     for i in 0..src_len {
         src.push(if rng.chance(1, 10) { rng.below(256) as u8 } else { b"module.exports = {} \n"[i % 21] });
     }
-    C17Scenario { n_targets, name_pad, source_hex: crate::proto::hex(&src), tamper_seed: rng.next_u64(), n_tampers: if tier == Tier::Thorough { 40 } else { 10 }, rand_seed: rng.next_u64() % 1_000_000, only: vec![], cwd_sub: false }
+    C17Scenario { n_targets, name_pad, source_hex: crate::proto::hex(&src), tamper_seed: rng.next_u64(), n_tampers: if tier == Tier::Thorough { 40 } else { 10 }, rand_seed: rng.next_u64() % 1_000_000, only: vec![], cwd_sub: false, explicit_nulls: false }
 }
 
 fn pick_offsets(rng: &mut Rng, len: usize) -> usize {
@@ -152,7 +157,7 @@ fn gen_tamper(rng: &mut Rng, sizes: [usize; 3], bytes: [&[u8]; 3]) -> Tamper {
         }
         6 => TamperKind::DropTail { k: 1 + rng.below(3.min(len.max(1))) },
         7 => TamperKind::Truncate { at: pick_offsets(rng, len) },
-        8 => TamperKind::Append { hex: crate::proto::hex(*rng.pick(&[&b"\n"[..], &b" "[..], &b"x"[..], &b"{}"[..]])) },
+        8 => TamperKind::Append { hex: crate::proto::hex(*rng.pick(&[&b"\n"[..], &b" "[..], &b"x"[..], &b"{}"[..], &b"\0"[..], &b"\0\0\0\0"[..]])) },
         _ => TamperKind::RewriteSame,
     };
     Tamper { file, kind, keep_mtime: rng.chance(1, 3) }
@@ -271,7 +276,10 @@ fn exec_c17(sc: &C17Scenario) -> Outcome {
         out.fault("invocations_from_a_sub_directory_holding_the_source", 1);
     }
     let mut input = spec.config_json(w.ports.lock, w.ports.log);
-    input["source"] = json!({ "path": src_rel });
+    input["source"] = if sc.explicit_nulls { json!({ "path": src_rel, "checksum": null, "algorithm": null }) } else { json!({ "path": src_rel }) };
+    if sc.explicit_nulls {
+        out.fault("generate_input_spells_out_null_checksum_and_algorithm", 1);
+    }
     let _ = std::fs::remove_file(w.root.join("Monorail.json"));
     let g = w.cli_stdin(&["config", "generate"], input.to_string().as_bytes());
     if g.code != Some(0) {
